@@ -103,13 +103,20 @@ def make_catalog(path, cat, cen, **kw):
 # ------------------------------------------------------------- scales ---
 
 
-def scale_config(scale_set: str, unit: str, binning: str, cosmo_name: str = "Planck15"):
-    """Scale limits in `unit` that correspond to the angular set at the centre of the first bin."""
+def cosmo_of(name):
+    """astropy cosmology for a case: a named one, or 'curved' (closed model, D_M != D_C)."""
     import astropy.cosmology as ac
 
+    if name == "curved":
+        return ac.LambdaCDM(H0=70.0, Om0=0.3, Ode0=0.9)
+    return getattr(ac, name or "Planck15")
+
+
+def scale_config(scale_set: str, unit: str, binning: str, cosmo_name: str = "Planck15"):
+    """Scale limits in `unit` that correspond to the angular set at the centre of the first bin."""
     edges, _ = BINNINGS[binning]
     z0 = 0.5 * (edges[0] + edges[1])
-    cosmo = getattr(ac, cosmo_name)
+    cosmo = cosmo_of(cosmo_name)
     lims = np.deg2rad(np.array(ANG[scale_set]))
     if unit == "deg":
         vals = np.array(ANG[scale_set])
@@ -126,9 +133,7 @@ def scale_config(scale_set: str, unit: str, binning: str, cosmo_name: str = "Pla
 
 def ref_angles(rmin, rmax, unit, zmid, cosmo_name="Planck15"):
     """Angle limits in radian at zmid for every scale, computed with astropy directly."""
-    import astropy.cosmology as ac
-
-    cosmo = getattr(ac, cosmo_name)
+    cosmo = cosmo_of(cosmo_name)
     out = []
     for r in (np.asarray(rmin, dtype=float), np.asarray(rmax, dtype=float)):
         if unit == "deg":
